@@ -14,9 +14,7 @@ use crate::nodes::{
     Block, DoStatement, Expression, FunctionCall, Prefix, Statement, StringExpression,
     VariableAssignment,
 };
-use crate::process::{
-    to_expression, DefaultVisitor, IdentifierTracker, NodeProcessor, NodeVisitor, ScopeVisitor,
-};
+use crate::process::{to_expression, IdentifierTracker, NodeProcessor, NodeVisitor, ScopeVisitor};
 use crate::rules::require::{is_require_call, match_path_require_call, PathLocator};
 use crate::rules::{
     Context, ContextBuilder, FlawlessRule, ReplaceReferencedTokens, RuleProcessResult,
@@ -223,9 +221,15 @@ impl<'a, 'b, 'resources, PathLocatorImpl: PathLocator>
                     }
 
                     let current_source = mem::replace(&mut self.source, path.to_path_buf());
+                    // the module has its own scopes: identifiers of the requiring file
+                    // are not visible in it
+                    let current_tracker =
+                        mem::replace(&mut self.identifier_tracker, IdentifierTracker::new());
 
                     let apply_processor_timer = Timer::now();
-                    DefaultVisitor::visit_block(&mut block, self);
+                    ScopeVisitor::visit_block(&mut block, self);
+
+                    self.identifier_tracker = current_tracker;
 
                     log::debug!(
                         "processed `{}` into bundle in {}",
